@@ -38,12 +38,14 @@ def _run_one(args):
         return {"task": task.name, "props": task.props, "status": "crash", "reason": traceback.format_exc()[-2000:], "obligations": [], "targets": []}
 
 
-def run_modules(modnames, flt=None, props=None, jobs=12):
+def run_modules(modnames, flt=None, props=None, jobs=12, names=None):
     work = []
     for m in modnames:
         mod = importlib.import_module(m)
         for i, t in enumerate(mod.tasks()):
             if flt and flt not in t.name:
+                continue
+            if names is not None and t.name not in names:
                 continue
             if props and not (set(props) & set(_props_of(t))):
                 continue
